@@ -244,3 +244,68 @@ def _termination_idiom(ctx, fn, w: ast.While):
             return True, f"bounded walk: {v} advances towards {A.unparse(test.comparators[0])}"
     # vendored SCC: `while queue:` / `while scc_queue and ...` with pop on every non-growing iteration
     return False, f"'while {A.unparse(test)[:40]}' has no recognised variant"
+
+
+@rule("TOTAL-5", 4, "each case of join_tails_and_exits inserts the tail after the given tails and the exit before the given exits, and returns exactly the names it inserted (or the single given ones)")
+def total5(ctx) -> List[Ob]:
+    out: List[Ob] = []
+    fn = ctx.prog.cls("SCFG").find_method("join_tails_and_exits")
+    if fn is None:
+        raise AnalysisError("SCFG.join_tails_and_exits not found")
+    tails, exits = [p.arg for p in fn.params if p.arg != "self"]
+    for st in A.body_without_docstring(fn.node):
+        if not isinstance(st, ast.If):
+            continue
+        rets = [r for r in st.body if isinstance(r, ast.Return)]
+        if not rets or not isinstance(rets[-1].value, ast.Tuple) or len(rets[-1].value.elts) != 2:
+            continue
+        key = "case " + A.alpha_key(st.test)
+        where = ctx.where(fn, st)
+        r_tail, r_exit = [A.unparse(e) for e in rets[-1].value.elts]
+        cfg = ctx.cfg(fn)
+
+        def origin(name: str) -> str:
+            for s in st.body:
+                if isinstance(s, ast.Assign) and isinstance(s.targets[0], ast.Name) and s.targets[0].id == name:
+                    v = A.unparse(s.value)
+                    if "new_block_name" in v:
+                        return "fresh"
+                    if v == f"next(iter({tails}))" or v == f"{tails}[0]":
+                        return "the-tail"
+                    if v == f"next(iter({exits}))" or v == f"{exits}[0]":
+                        return "the-exit"
+                    return "other:" + v
+            return "undefined"
+
+        t_ins = [c for c in A.walk_no_nested(ast.Module(st.body, [])) if isinstance(c, ast.Call) and isinstance(c.func, ast.Attribute) and c.func.attr == "insert_SyntheticTail"]
+        e_ins = [c for c in A.walk_no_nested(ast.Module(st.body, [])) if isinstance(c, ast.Call) and isinstance(c.func, ast.Attribute) and c.func.attr == "insert_SyntheticExit"]
+        probs = []
+        ot, oe = origin(r_tail), origin(r_exit)
+        # tail side
+        if t_ins:
+            c = t_ins[0]
+            a = [A.unparse(x) for x in c.args]
+            if ot != "fresh" or a[0] != r_tail:
+                probs.append(f"a tail block is inserted as {a[0]} but {r_tail} ({ot}) is returned as the tail")
+            if a[1:] != [tails, exits]:
+                probs.append(f"the tail is inserted between {a[1:]} instead of ({tails}, {exits})")
+        elif ot != "the-tail":
+            probs.append(f"no tail is inserted but the returned tail {r_tail} is {ot}, not the single given tail")
+        # exit side
+        if e_ins:
+            c = e_ins[0]
+            a = [A.unparse(x) for x in c.args]
+            want_pred = f"[{r_tail}]" if t_ins else tails
+            if oe != "fresh" or a[0] != r_exit:
+                probs.append(f"an exit block is inserted as {a[0]} but {r_exit} ({oe}) is returned as the exit")
+            if a[1:] != [want_pred, exits]:
+                probs.append(f"the exit is inserted between {a[1:]} instead of ({want_pred}, {exits})")
+            if t_ins and cfg.node_of(e_ins[0]) not in cfg.reachable(cfg.node_of(t_ins[0])):
+                probs.append("the exit is inserted before the tail")
+        elif oe != "the-exit":
+            probs.append(f"no exit is inserted but the returned exit {r_exit} is {oe}, not the single given exit")
+        if probs:
+            out.append(bad("TOTAL-5", fn.qualname, key, where, "; ".join(probs)))
+        else:
+            out.append(ok("TOTAL-5", fn.qualname, key, where, f"tail: {'inserted' if t_ins else 'given'}, exit: {'inserted' if e_ins else 'given'}; returned names are those"))
+    return out
